@@ -13,8 +13,8 @@ const pkgUtil = "pkg/edition/java/proto/util"
 
 func init() {
 	register(&propDef{
-		ID:       "C07",
-		Title:    "Packets the proxy builds decode as intended by an independent vanilla decoder",
+		ID:    "C07",
+		Title: "Packets the proxy builds decode as intended by an independent vanilla decoder",
 		Patterns: []string{"./pkg/edition/java/proto/packet/...", "./pkg/edition/java/proto/state", "./pkg/edition/java/proto/version", "./pkg/edition/java/proto/util",
 			"./pkg/edition/java/proxy/crypto", "./pkg/edition/java/profile", "./pkg/gate/proto"},
 		Run: runC07,
